@@ -68,9 +68,19 @@ def isnn_body(msg, name):
         "isNN == status/reserved-bit format rules and plausibility envelope of the register (never raises)"
 
 
-@harness(("C12", "C14"), inputs={"msg": HexStr(28), "mrar": Choice(False, True)},
+@harness(("C12", "C14"), inputs={"msg": HexStr(28), "mrar": Choice(False, True), "first": Choice(0, 1, 2, 3),
+                                 "b50": Choice(False, True), "b60": Choice(False, True), "b40": Choice(False, True)},
          functions=["pyModeS.decoder.bds.infer"], body_of=["pyModeS.decoder.bds.infer"], idealised=True)
-def infer_body(msg, mrar):
+def infer_body(msg, mrar, first, b50, b60, b40):
+    # case split (exhaustive: every frame falls in exactly one case) on the first MB byte - 0x10 / 0x20 / 0x30 /
+    # anything else, the registers with a fixed BDS code byte are mutually exclusive - and on the BDS 5,0 / 6,0
+    # predicates; it only keeps the number of mask combinations per verification condition small
+    byte = F.field(F.hexbits(msg), 33, 40)
+    assume((byte == 16) if first == 1 else ((byte == 32) if first == 2 else ((byte == 48) if first == 3 else
+                                                                          (byte != 16 and byte != 32 and byte != 48))))
+    assume(bds_spec.is50(msg) == b50)
+    assume(bds_spec.is60(msg) == b60)
+    assume(bds_spec.is40(msg) == b40)
     assert outcome(BDS.infer, msg, mrar) == outcome(bds_spec.infer, msg, mrar), \
         "infer == EMPTY / register of the type code / sorted comma-joined set of matching registers / None"
 
